@@ -158,3 +158,8 @@ contract(CP + 'set_name', [('self', CT), ('name', TOpt(TStr))], returns=TNone,
          ensures=lambda S0, S, a, res: [('stored', z3.And(S.fld_none('Constraint', 'name', a['self'].t) == a['name'].none,
                                                          z3.Implies(z3.Not(a['name'].none), S.fld('Constraint', 'name', a['self'].t) == a['name'].t)))],
          modifies=lambda S, a: {'f:name': lambda r: r == a['self'].t, 'f:name?none': lambda r: r == a['self'].t})
+
+contract(EP + 'set_name', [('self', ET), ('name', TOpt(TStr))], returns=TNone,
+         ensures=lambda S0, S, a, res: [('stored', z3.And(S.fld_none('Expression', 'name', a['self'].t) == a['name'].none,
+                                                         z3.Implies(z3.Not(a['name'].none), S.fld('Expression', 'name', a['self'].t) == a['name'].t)))],
+         modifies=lambda S, a: {'f:name': lambda r: r == a['self'].t, 'f:name?none': lambda r: r == a['self'].t})
